@@ -25,11 +25,31 @@ def replay(rec, repo, seed):
     return script_replay('replay/trainer.py', default_fn=which)({'fn': ':' + which}, repo, seed)
 
 
+PID = 'C05'
+
+MW_READS = [('lib_trainer/detection_rules/alpha_detection.py', 'alpha_detection', ['multiword_detector']),
+            ('lib_trainer/detection_rules/alpha_detection.py', 'detect_alpha', ['multiword_detector']),
+            ('lib_trainer/detection_rules/multiword_detector.py', 'MultiWordDetector.parse'),
+            ('lib_trainer/detection_rules/multiword_detector.py', 'MultiWordDetector._identify_multi'),
+            ('lib_trainer/detection_rules/multiword_detector.py', 'MultiWordDetector._get_count')]
+
+
+def detector_frame(repo):
+    """segmenting a password only reads the trained multi-word detector (no cache or counter of it is updated): the segmentation of a password does not
+    depend on which passwords were segmented before"""
+    from pyvc import effects as _eff
+    recs = _eff.readonly_frame(repo, MW_READS, tag='detector.readonly', immutable_params=('section', 'alpha_string'))
+    for r in recs:
+        r['name'] = '%s.' % PID + r['name']
+    return recs
+
+
 PROP = Prop(
     'C05', 'Training segments every password into a lossless, soundly typed tiling',
     functions=FUNCS,
     lemmas=lemmas,
     setup=td.install,
+    effects=detector_frame,
     level='other',
     replay=replay,
     bounded=[
